@@ -64,6 +64,8 @@ func genBody(spec string) []byte {
 		return append(b, 128)
 	case "a85-z":
 		return append(bytes.Repeat([]byte{'z'}, n), '~', '>')
+	case "flate-ones":
+		return zlibOf(bytes.Repeat([]byte{0xff}, n))
 	case "ones": // n bytes 0xFF (Group 4: every 1 bit is a whole row copied from above)
 		return bytes.Repeat([]byte{0xff}, n)
 	case "zeros":
@@ -423,6 +425,10 @@ func mutationCases(ctx *core.Ctx) []*Case {
 // ---------------------------------------------------------------------------
 // bombs, deep chains, early Close
 
+func ccParms(k, cols, rows int64) c06.Val {
+	return dictVal(c06.Dict{"K": intVal(k), "Columns": intVal(cols), "Rows": intVal(rows)})
+}
+
 func bombCases(ctx *core.Ctx) []*Case {
 	big := ctx.Pick(8<<20, 64<<20)
 	fl := nm("FlateDecode")
@@ -450,6 +456,19 @@ func bombCases(ctx *core.Ctx) []*Case {
 		{Class: "bomb/jbig2-claims-65535x65535", Filter: nm("JBIG2Decode"), Parms: none, BodyGen: "jbig2-claim:0"},
 		{Class: "chain/8-deep", Filter: arr(hex8...), Parms: none, BodyGen: "hex-nested:8"},
 		{Class: "chain/9-deep", Filter: arr(append(hex8, nm("ASCIIHexDecode"))...), Parms: none, BodyGen: "hex-nested:9"},
+		// a declared /Rows must not lift the geometric bound: huge, and just
+		// above / below min(65536, 128 Mi / Columns)
+		{Class: "bomb/ccitt-g4-columns-2^20-rows-2^20", Filter: nm("CCITTFaxDecode"), Parms: ccParms(-1, 1<<20, 1<<20), BodyGen: "ones:2048"},
+		{Class: "bomb/ccitt-g4-columns-2^20-rows-129", Filter: nm("CCITTFaxDecode"), Parms: ccParms(-1, 1<<20, 129), BodyGen: "ones:2048"},
+		{Class: "bomb/ccitt-g4-columns-2^20-rows-128", Filter: nm("CCITTFaxDecode"), Parms: ccParms(-1, 1<<20, 128), BodyGen: "ones:2048"},
+		{Class: "bomb/ccitt-g4-columns-2^20-rows-127", Filter: nm("CCITTFaxDecode"), Parms: ccParms(-1, 1<<20, 127), BodyGen: "ones:2048"},
+		{Class: "bomb/ccitt-g4-columns-8-rows-2^20", Filter: nm("CCITTFaxDecode"), Parms: ccParms(-1, 8, 1<<20), BodyGen: "ones:20000"},
+		{Class: "bomb/ccitt-g4-columns-8-rows-65537", Filter: nm("CCITTFaxDecode"), Parms: ccParms(-1, 8, 65537), BodyGen: "ones:20000"},
+		{Class: "bomb/ccitt-g4-columns-8-rows-65536", Filter: nm("CCITTFaxDecode"), Parms: ccParms(-1, 8, 65536), BodyGen: "ones:20000"},
+		{Class: "bomb/ccitt-g4-columns-4096-rows-2^20", Filter: nm("CCITTFaxDecode"), Parms: ccParms(-1, 4096, 1<<20), BodyGen: "ones:20000"},
+		{Class: "bomb/ccitt-g3-columns-2^20-rows-2^20", Filter: nm("CCITTFaxDecode"), Parms: ccParms(0, 1<<20, 1<<20), BodyGen: "ones:2048"},
+		{Class: "bomb/ccitt-g32d-columns-2^20-rows-2^20", Filter: nm("CCITTFaxDecode"), Parms: ccParms(4, 1<<20, 1<<20), BodyGen: "ones:2048"},
+		{Class: "bomb/ccitt-after-flate-rows-2^20", Filter: arr(fl, nm("CCITTFaxDecode")), Parms: arr(c06.Val{T: "null"}, ccParms(-1, 1<<20, 1<<20)), BodyGen: "flate-ones:100000"},
 		// early Close
 		{Class: "abandon/flate-zeros", Filter: fl, Parms: none, BodyGen: fmt.Sprintf("flate-zeros:%d", big), Abandon: 1000},
 		{Class: "abandon/dct", Filter: nm("DCTDecode"), Parms: none, BodyGen: "jpeg-flat:256", Abandon: 100},
@@ -585,6 +604,89 @@ func lzwStateCases(ctx *core.Ctx) []*Case {
 				}
 				cases = append(cases, &Case{Class: "lzw-state/" + st.name, Filter: nm("LZWDecode"),
 					Parms: dictVal(c06.Dict{"EarlyChange": intVal(int64(early))}), body: e.bytes(), Note: fmt.Sprintf("next=%d suffix=%v", st.next, sfx)})
+			}
+		}
+	}
+	return cases
+}
+
+// ---------------------------------------------------------------------------
+// hand-built JBIG2 segment structures (embedded organisation, ISO 14492 7.2):
+// a page smaller or larger than its regions, intermediate regions referred to
+// by one, two or three refinement regions, refinements of refinements.  The
+// arithmetic-coded payloads are arbitrary bytes (the MQ decoder turns any byte
+// string into pixels).
+
+func be32(b []byte, v uint32) []byte { return append(b, byte(v>>24), byte(v>>16), byte(v>>8), byte(v)) }
+
+// jbSegment appends one segment; segment numbers are below 256, so referred-to
+// numbers take one byte each.
+func jbSegment(buf []byte, number uint32, segType byte, refs []byte, data []byte) []byte {
+	buf = be32(buf, number)
+	buf = append(buf, segType)
+	buf = append(buf, byte(len(refs))<<5)
+	buf = append(buf, refs...)
+	buf = append(buf, 1) // page association
+	buf = be32(buf, uint32(len(data)))
+	return append(buf, data...)
+}
+
+func jbRegionInfo(w, h uint32) []byte {
+	var b []byte
+	b = be32(b, w)
+	b = be32(b, h)
+	b = be32(b, 0)
+	b = be32(b, 0)
+	return append(b, 0) // combination operator OR
+}
+
+func jbPage(w, h uint32) []byte {
+	var p []byte
+	p = be32(p, w)
+	p = be32(p, h)
+	p = append(p, make([]byte, 8)...)
+	return append(p, 0, 0, 0)
+}
+
+func jbig2Cases(ctx *core.Ctx) []*Case {
+	r := ctx.Rand("jbig2")
+	var cases []*Case
+	dims := [][2]uint32{{8, 1}, {64, 64}, {1, 1}, {65, 3}}
+	for _, page := range dims {
+		for _, reg := range dims {
+			for nref := 1; nref <= 3; nref++ {
+				for _, refType := range []byte{40, 42, 43} {
+					for _, tmpl := range []byte{0, 1} {
+						for rep := 0; rep < ctx.Pick(1, 4); rep++ {
+							payload := make([]byte, 16)
+							r.Read(payload)
+							var body []byte
+							body = jbSegment(body, 0, 48, nil, jbPage(page[0], page[1]))
+							gen := jbRegionInfo(reg[0], reg[1])
+							gen = append(gen, 0x00)
+							gen = append(gen, 3, 0xff, 0xfd, 0xff, 2, 0xfe, 0xfe, 0xfe)
+							gen = append(gen, payload...)
+							body = jbSegment(body, 1, 36, nil, gen) // intermediate generic region
+							for n := 0; n < nref; n++ {
+								ref := jbRegionInfo(reg[0], reg[1])
+								ref = append(ref, tmpl) // GRTEMPLATE
+								if tmpl == 0 {
+									ref = append(ref, 0xff, 0xff, 0xff, 0xff) // two AT pixels
+								}
+								ref = append(ref, payload...)
+								refs := []byte{1}
+								if n == 2 && refType == 40 {
+									refs = []byte{2} // a refinement of the first (intermediate) refinement
+								}
+								body = jbSegment(body, uint32(2+n), refType, refs, ref)
+							}
+							body = jbSegment(body, uint32(2+nref), 49, nil, nil)
+							cases = append(cases, &Case{Class: fmt.Sprintf("jbig2-structure/refinement-type-%d/refs=%d", refType, nref),
+								Filter: nm("JBIG2Decode"), Parms: none, body: body,
+								Note: fmt.Sprintf("page %dx%d region %dx%d template %d", page[0], page[1], reg[0], reg[1], tmpl)})
+						}
+					}
+				}
 			}
 		}
 	}
